@@ -98,7 +98,7 @@ def C07_flags_Full : Prop := ∀ (cfg : Cfg) (m : Meta), cloneSealed cfg m = m.s
 
 def C07_flags_pinned_Full : Prop := ∀ m : Meta, cloneSealed Cfg.pinned m = m.sealed
 
-/-- … and for every kind but `list` (F17) and `pg.Ref` (F90) on the unpatched tree. -/
+/-- … and for every kind but `list` (F17) and `pg.Ref` (F92) on the unpatched tree. -/
 theorem C07_flags_pinned_partial (m : Meta) (h : m.kind ≠ .list) (h2 : m.kind ≠ .obj clsRef) :
     cloneSealed Cfg.pinned m = m.sealed := by
   unfold cloneSealed
@@ -110,9 +110,9 @@ theorem C07_flags_pinned_partial (m : Meta) (h : m.kind ≠ .list) (h2 : m.kind 
       intro he; subst he; exact h2 hk
     split <;> simp_all
 
-/-- F90: `Ref._sym_clone` builds `Ref(value, allow_partial=…)`; a sealed Ref is cloned unsealed
+/-- F92: `Ref._sym_clone` builds `Ref(value, allow_partial=…)`; a sealed Ref is cloned unsealed
 (in every configuration: not repaired). -/
-theorem C07_counterexample_F90 : ¬ C07_flags_Full := by
+theorem C07_counterexample_F92 : ¬ C07_flags_Full := by
   intro h
   have := h Cfg.patched { id := 0, parent := none, path := [], kind := .obj clsRef, sealed := true,
                           accW := false, part := false, ref := some 1 }
